@@ -180,6 +180,13 @@ func (ir *IntrospectionResolver) resolveType(schema *ast.Schema, typ *ast.Type, 
 			result[f.Alias] = fields
 		case "description":
 			result[f.Alias] = namedType.Description
+		case "specifiedByURL":
+			result[f.Alias] = nil
+			if d := namedType.Directives.ForName("specifiedBy"); d != nil {
+				if url := d.Arguments.ForName("url"); url != nil && url.Value != nil {
+					result[f.Alias] = url.Value.Raw
+				}
+			}
 		case "interfaces":
 			// only objects and interfaces implement interfaces
 			if namedType.Kind != ast.Object && namedType.Kind != ast.Interface {
